@@ -28,7 +28,9 @@ def stepTok (st : St) (tok : String) : Option St :=
       some { st with store := s', queue := st.queue ++ ev, names := if st.names.contains n then st.names else n :: st.names }
   else if c == 'c' then
     match (tok.drop 1).toString.splitOn "." with
+    | [ns, "nil"] => ns.toNat?.map fun _ => st          -- an update without a configuration carries nothing to apply
     | [ns, rest] =>
+      -- "u" (passes Validate(), no processor can be made from it) is not a valid configuration in the property's sense
       match ns.toNat?, (rest.dropEnd 1).toString.toNat? with
       | some n, some id =>
         let (s', ev) := cfgUpdate st.store n { id := id, valid := rest.endsWith "v" }
@@ -103,6 +105,8 @@ def handle (kind : String) (args : List String) (impl : String) : String :=
       let implProcs := ((impl.splitOn " | procs ").getD 1 "")
       let want := specProcsStrict st
       if implProcs == want then "ok" else s!"SPEC processors-differ-from-configured expected={want} impl={impl}"
+  | "c08.alias", [_, _] =>
+    if impl == "missing=0 extra=0" then "ok" else s!"SPEC processor-hosts-differ-from-the-endpoint-set impl={impl}"
   | "c08.hist", toks =>
     match runToks { store := fun _ => none, queue := [], procs := fun _ => none, names := [] } toks with
     | none => "bad-op"
